@@ -1,4 +1,5 @@
-"""C11 -- C literals are classified as C defines them (bounded stand-in, DESIGN.md 4.11)."""
+"""C11 -- C literals are classified as C defines them (match lemmas for the numeric patterns, DESIGN.md 10.7;
+bounded stand-in for the rest, 4.11)."""
 import json
 import time
 
@@ -27,6 +28,11 @@ def run(tier, seed, replay):
         if not task:
             print(json.dumps(rp.get("verifier_output"), indent=1)[:3000])
             return 1
+        if task.get("op") == "rematch_one":
+            real = run_native("spell_harness", {"op": "rematch", "pattern": task["pattern"], "words": [task["text"]]})["results"][0]
+            print(f"{task['pattern']}.match({task['text']!r}) -> {real}; expected for a C constant of the family: {task['expected']}")
+            from .c11_regex import agrees
+            return 0 if agrees(real, task["expected"]) else 1
         r = run_native("spell_harness", task)
         print(json.dumps(r, indent=1)[:1500])
         bad = bool(r.get("errors")) or r.get("exc") or len(r.get("tokens") or []) != 1
@@ -50,6 +56,15 @@ def run(tier, seed, replay):
     chk.finite("tables.quote_prefixes", need_p <= got_p, len(need_p),
                {"missing": sorted(need_p - got_p), "note": "the table also accepts 'l', which C does not define"},
                what=f"literal prefixes missing: {sorted(need_p - got_p)}")
+    # numeric constants, for digit strings of any length: which match the real patterns return
+    from . import c11_regex
+    nval, bad, dt = c11_regex.run_regex_lemmas(chk, thorough)
+    if bad:
+        raise RuntimeError(f"the encoding of re's search order disagrees with re itself or the family specification "
+                           f"is wrong: {bad[:2]}")
+    chk.finite("regex.search_order_encoding_validated", True, nval,
+               {"note": "members of every family through the real compiled patterns: end() and named groups equal the "
+                        "expected match"}, time_s=dt)
     t0 = time.time()
     nat = run_native("spell_harness", {"op": "literals", "maxlen": 3, "thorough": thorough}, timeout=3000)
     groups = {}
@@ -90,13 +105,20 @@ def run(tier, seed, replay):
                                                               "replay": {"op": "one", "text": v["text"]},
                                                               "confirmed_on_real_code": True}, what=v["what"], confirmed=True)
     chk.assumptions += [
-        "parse_integer_literal / parse_float_literal delegate the decomposition of a constant to Python `re` patterns "
-        "with backtracking, named groups and look-behind: out of reach of z3's / cvc5's regular-expression theories, "
-        "hence a bounded stand-in over the property's own length-bounded quantifier and NO proof",
+        "numeric constants: the lemmas say which match (end and named groups) the four real patterns return on every "
+        "member of 37 families of C constants, for digit strings of any length; they rest on an encoding of the search "
+        "order of Python's `re` (leftmost alternative first, greedy runs longest first, backtracking) that is validated "
+        "against `re` on members of every family on each run, not proved; \\d and \\w are read as ASCII classes, which is "
+        "exact on the families (ASCII constants followed by nothing or by an ASCII character that cannot continue a "
+        "preprocessing number)",
+        "what parse_integer_literal / parse_float_literal do with the groups (suffix tables, digit buckets, error "
+        "branches), hexadecimal floating constants, and character / string literals are covered by the bounded stand-in "
+        "only",
     ]
-    return chk.finish(level_if_complete="exploration",
-                      explanation="bounded stand-in only (see assumptions); the suffix / prefix tables are complete "
-                      "finite evaluations")
+    return chk.finish(level_if_complete="other",
+                      explanation="match lemmas for the numeric-literal patterns discharged by z3 (regular-language "
+                      "emptiness, unbounded digit strings); suffix / prefix tables by complete finite evaluation; the "
+                      "parsers' use of the groups and char / string literals by a bounded stand-in")
 
 
 if __name__ == "__main__":
